@@ -707,3 +707,91 @@ Theorem apply_model_recovers_S_n5_nonvacuous :
   exists a b, q_apply T8 5 5 kf_e5 kf_s5 = AOk a b kf_s5.
 Proof. exact FillLoopsRecovers.apply_model_recovers_S_n5_nonvacuous. Qed.
 Print Assumptions apply_model_recovers_S_n5_nonvacuous.
+
+(* ================================================================================================
+   Part 4 (session 5, package K, second box): the composition for the leakage types from the physical hypothesis
+   on both halves, and the E-term form of the physical hypothesis. *)
+Require LV.Cal.EndToEndAll LV.Cal.EndToEndDevice LV.Cal.EndToEndFinal LV.Cal.LeakETerms.
+Import LV.Cal.EndToEndAll LV.Cal.EndToEndDevice LV.Cal.EndToEndFinal LV.Cal.LeakETerms.
+
+(* row_res = 0 is the rdot hypothesis of the solve theorems (every type, all dimensions) *)
+Theorem rows_satisfied_rdot ty mr mc (fe : nat -> qi) (sys : nat) (row : list qi * qi) :
+  length (fst row) = unknowns ty mr mc ->
+  row_res QIF ty mr mc fe sys row = @c0 QIF ->
+  rdot (unknowns ty mr mc) (fst row) (x_of_sys ty mr mc fe sys) = snd row.
+Proof. exact (EndToEndAll.rows_satisfied_rdot ty mr mc fe sys row). Qed.
+Print Assumptions rows_satisfied_rdot.
+
+(* PARTIAL (bound: standards of the family zcfgs, dims 1..3): physical network + every cell covered + every system
+   with enough equations and full column rank (the form of Properties_C20.determining_set_solves) => the solve
+   model SUCCEEDS with the network's vector and the saved leakage terms are El *)
+Theorem leak_solve_returns_true_terms_partial (mr mc : nat) (fe : nat -> qi) (el : nat -> nat -> qi) (pv : Z -> qi)
+        (ms : list (mvals qops)) (fxof : mvals qops -> nat -> qi) (core : mvals qops -> nat -> nat -> qi) (sty : caltype) :
+  List.In sty (TE10 :: UE10 :: UE14 :: E12_UE14 :: nil)%list ->
+  (forall mv, List.In mv ms ->
+     std_of QIF sty mr mc mv /\ network_of QIF mr mc fe pv fxof core sty mv /\ measured_with_leakage QIF mr mc el core mv) ->
+  covered QIF mr mc el ms ->
+  (forall sys, (sys < systems_of sty mc)%coq_nat ->
+     let rows := q_assemble sty mr mc ms pv sys in
+     (unknowns sty mr mc <= length rows)%coq_nat /\ kernel_trivial (unknowns sty mr mc) rows) ->
+  q_error_terms sty mr mc ms pv =
+  Some (if caltype_eqb sty E12_UE14 then convert_ue14_to_e12 qops mr mc (e_vector qops sty mr mc ms (xs_of sty mr mc fe))
+        else e_vector qops sty mr mc ms (xs_of sty mr mc fe)) /\
+  leak_terms qops sty mr mc ms = List.map (fun rc => el (fst rc) (snd rc)) (offdiag_cells mr mc).
+Proof. exact (EndToEndAll.leak_solve_returns_true_terms_lemma mr mc fe el pv ms fxof core sty). Qed.
+Print Assumptions leak_solve_returns_true_terms_partial.
+
+(* the device half, every field: what doc_cell reads out of the SAVED vector (through the layout; through
+   convert_ue14_to_e12 for E12) at the measured matrix Mc + El vanishes when Mc satisfies the core equation.
+   Bound in the statement: dev_cases_all = TE10, UE10, UE14, E12 x square dimensions 1..3. *)
+Theorem device_doc_vanishes (K : CField) (ty : caltype) (n : nat) (fe : nat -> K) (el Mc : nat -> nat -> K) (fs : nat -> K) :
+  List.In (ty, n) dev_cases_all ->
+  device_network K ty n fe Mc (fun a b => fs (a * n + b)%coq_nat) ->
+  forall i j, (i < n)%coq_nat -> (j < n)%coq_nat ->
+    doc_cell K ty n n (dev_vector K ty n fe el) (dev_m K n Mc el) (lst K (n * n)%coq_nat fs) i j = @c0 K.
+Proof. exact (EndToEndDevice.device_doc_vanishes_lemma K ty n fe el Mc fs). Qed.
+Print Assumptions device_doc_vanishes.
+
+(* c01_model_end_to_end_leak, PARTIAL by its bound (in the statement): stored type TE10 / UE10 / UE14 / E12, square
+   dimensions 1..3 (dev_cases_all), standards of the family zcfgs.  Solve returns the network's vector; apply on it
+   returns S for EVERY device measured by the same network.  (1x2 / 2x1 and dimension 4: c01_model_end_to_end_partial
+   with the device equation assumed.) *)
+Theorem c01_model_end_to_end_leak_partial (ty : caltype) (n : nat) :
+  List.In (ty, n) dev_cases_all ->
+  let sty := solve_type ty in
+  forall (fe : nat -> qi) (el : nat -> nat -> qi) (pv : Z -> qi) (ms : list (mvals qops))
+         (fxof : mvals qops -> nat -> qi) (core : mvals qops -> nat -> nat -> qi),
+  (forall mv, List.In mv ms ->
+     std_of QIF sty n n mv /\ network_of QIF n n fe pv fxof core sty mv /\ measured_with_leakage QIF n n el core mv) ->
+  covered QIF n n el ms ->
+  (forall sys, (sys < systems_of sty n)%coq_nat ->
+     let rows := q_assemble sty n n ms pv sys in
+     (unknowns sty n n <= length rows)%coq_nat /\ kernel_trivial (unknowns sty n n) rows) ->
+  let e_true := dev_vector QIF ty n fe el in
+  q_error_terms sty n n ms pv = Some e_true /\
+  forall (m s : list qi) (Mc : nat -> nat -> qi), length m = (n * n)%coq_nat -> length s = (n * n)%coq_nat ->
+    device_network QIF ty n fe Mc (fun a b => List.nth (a * n + b)%coq_nat s (@c0 QIF)) ->
+    (forall r c, (r < n)%coq_nat -> (c < n)%coq_nat ->
+       List.nth (r * n + c)%coq_nat m (@c0 QIF) = @cadd QIF (Mc r c) (if Nat.eqb r c then @c0 QIF else el r c)) ->
+    forall a b x, q_apply ty n n e_true m = AOk a b x -> x = s.
+Proof. exact (EndToEndFinal.c01_model_end_to_end_leak_lemma2 ty n). Qed.
+Print Assumptions c01_model_end_to_end_leak_partial.
+
+(* E terms (vnacal_layout.h): the 8-term core as a physical box [Ed Er; Et Em] with wave variables, no inverse:
+   B = S (Et e_j + Em B), Mc = Ed + Er B.  It yields the U / T / UE14 determining equations with the documented
+   conversions (Um = Er^-1, Ui = -Er^-1 Ed, Ux = Em Er^-1, Us = Et - Em Er^-1 Ed; Ts = Er - Ed Et^-1 Em, Ti = Ed Et^-1,
+   Tx = -Et^-1 Em, Tm = Et^-1) times ANY common factor k0 -- every n, every field. *)
+Theorem eterms_give_physU (K : CField) (n : nat) (Sm : nat -> nat -> K) (ed er et em : nat -> K) (k0 : K) (mc : nat) (Mc : nat -> nat -> K) :
+  (mc <= n)%coq_nat -> (forall i, (i < n)%coq_nat -> er i <> @c0 K) ->
+  physE K n Sm ed er et em n mc Mc ->
+  physU K n Sm (eu_Um K er k0) (eu_Ui K ed er k0) (eu_Ux K er em k0) (eu_Us K ed er et em k0) mc Mc.
+Proof. exact (LeakETerms.eterms_give_physU K n Sm ed er et em k0 mc Mc). Qed.
+Print Assumptions eterms_give_physU.
+
+Theorem eterms_give_physT (K : CField) (n : nat) (Sm : nat -> nat -> K) (ed er et em : nat -> K) (k0 : K) (mr : nat) (Mc : nat -> nat -> K) :
+  (mr <= n)%coq_nat -> (forall i, (i < n)%coq_nat -> et i <> @c0 K) ->
+  right_kernel_trivial K n (ISE K Sm em) ->
+  physE K n Sm ed er et em mr n Mc ->
+  physT K n Sm (et_Ts K ed er et em k0) (et_Ti K ed et k0) (et_Tx K et em k0) (et_Tm K et k0) mr Mc.
+Proof. exact (LeakETerms.eterms_give_physT K n Sm ed er et em k0 mr Mc). Qed.
+Print Assumptions eterms_give_physT.
